@@ -9,17 +9,18 @@ RULE = 'R-WORK'
 # Instances confirmed by reading the pinned tree.  kind: 'search' (graph search: needs a seen-marker),
 # 'tree' (tree expansion: every child is a strict sub-span, no marker needed), 'hopcroft'.
 # Loops are found by shape in the current source; this table only says what each one *is*.
+# keyed by function only: the name of the worklist variable is free (renaming it is a refactoring)
 KNOWN_LOOPS = {
-    ('nfa_algorithms.py:epsilon_closure', 'todo'): 'search',
-    ('nfa_algorithms.py:nfa_find_epsilon_path', 'todo'): 'search',
-    ('nfa_algorithms.py:nfa_to_dfa', 'todo'): 'search',
-    ('pda_algorithms.py:pda_epsilon_closure', 'todo'): 'search',
-    ('pda_algorithms.py:pda_find_epsilon_path', 'todo'): 'search',
-    ('dfa_algorithms.py:dfa_isomorphic', 'to_inspect'): 'search',
-    ('dfa_algorithms.py:dfa_isomorphic1', 'todo'): 'search',
-    ('dfa_algorithms.py:dfa_hopfcroft', 'W_cal'): 'hopcroft',
-    ('cfg_algorithms.py:cfg_derive_word', 'todo'): 'tree',
-    ('cfg_algorithms.py:cfg_derive_word.extract_derivation', 'todo'): 'tree',
+    'nfa_algorithms.py:epsilon_closure': 'search',
+    'nfa_algorithms.py:nfa_find_epsilon_path': 'search',
+    'nfa_algorithms.py:nfa_to_dfa': 'search',
+    'pda_algorithms.py:pda_epsilon_closure': 'search',
+    'pda_algorithms.py:pda_find_epsilon_path': 'search',
+    'dfa_algorithms.py:dfa_isomorphic': 'search',
+    'dfa_algorithms.py:dfa_isomorphic1': 'search',
+    'dfa_algorithms.py:dfa_hopfcroft': 'hopcroft',
+    'cfg_algorithms.py:cfg_derive_word': 'tree',
+    'cfg_algorithms.py:cfg_derive_word.extract_derivation': 'tree',
 }
 
 
@@ -61,12 +62,14 @@ def find_worklist_loops(ctx, f):
         for wl in sorted(cands):
             pops = []
             for st in _loop_stmts(loop):
-                for c in ast.walk(st) if isinstance(st, (ast.Assign, ast.Expr, ast.AugAssign)) else []:
+                for c in ast.walk(st) if isinstance(st, (ast.Assign, ast.AnnAssign, ast.Expr, ast.AugAssign)) else []:
                     if isinstance(c, ast.Call) and isinstance(c.func, ast.Attribute) and isinstance(c.func.value, ast.Name) \
                             and c.func.value.id == wl and c.func.attr in ('pop', 'popleft'):
                         var = None
                         if isinstance(st, ast.Assign) and len(st.targets) == 1:
                             var = st.targets[0]
+                        if isinstance(st, ast.AnnAssign) and st.value is not None:
+                            var = st.target
                         pops.append((st, var))
                     if isinstance(c, ast.Call) and isinstance(c.func, ast.Attribute) and isinstance(c.func.value, ast.Name) \
                             and c.func.value.id == wl and c.func.attr == 'remove':
@@ -476,6 +479,9 @@ def check_hopcroft(ctx, rep, wl: WLoop):
             # `if len(P1) == 0 or len(P2) == 0: continue`  => on the fall-through both are non-empty
             if a[0] == 'empty' and a[3] is False:
                 nonempty.add(a[1])
+            # `if not (P1 and P2): continue`: the halves are (frozen)sets, whose truth value is their non-emptiness
+            if a[0] == 'truthy' and a[3] is True:
+                nonempty.add(a[1])
         if set(halves) <= nonempty:
             rep.holds(RULE + '.hopcroft', f, st, 'enqueue dominated by the test that both halves {} and {} are non-empty (strict refinement, hence termination)'.format(*halves))
         else:
@@ -488,7 +494,7 @@ def check_worklists(ctx, rep, funcs, kinds=('search', 'hopcroft', 'tree')):
     found = 0
     for f in funcs:
         for wl in find_worklist_loops(ctx, f):
-            kind = KNOWN_LOOPS.get((f.short, wl.wl))
+            kind = KNOWN_LOOPS.get(f.short)
             if kind is None:
                 rep.undecided(RULE + '.W2', f, wl.loop, 'worklist loop over {} is not in the confirmed instance table'.format(wl.wl))
                 continue
